@@ -24,7 +24,14 @@ def tiny(dtype):
 
 
 def t(x, dtype=F64):
-    return torch.as_tensor(np.asarray(x, dtype=np.float64)).to(dtype)
+    """Tensor holding x.  About a third of the non-scalar ones are equal-valued views with another memory layout (see relayout); which ones is a
+    function of the values alone, so a replayed case sees the same layouts."""
+    a = np.asarray(x, dtype=np.float64)
+    out = torch.as_tensor(a).to(dtype)
+    if a.ndim == 0 or a.size < 2:
+        return out
+    h = float(np.nansum(np.abs(a[np.isfinite(a)]))) if np.isfinite(a).any() else 0.0
+    return relayout(out, int((h * 1e6) % 10) if h < 1e12 else 9)
 
 
 STYLES = ["gauss", "gauss", "lognormal", "ties", "heavy", "const", "twopoint", "sorted", "reversed", "uniform"]
@@ -54,7 +61,28 @@ def sample(rng, shape, dtype=F64, style=None, scale=1.0, loc=0.0):
         a = rng.random(shape) * 2 - 1
     else:
         raise ValueError(style)
-    return t(a * scale + loc, dtype), style
+    out = torch.as_tensor(np.asarray(a * scale + loc, dtype=np.float64)).to(dtype)
+    # memory layout is not part of any property: a share of the samples are equal-valued views (strided slice of a larger tensor, transposed storage,
+    # storage offset), decided from the generator's state without advancing it (case values stay what they were)
+    mode = int(rng.bit_generator.state["state"]["state"] % 10)
+    return relayout(out, mode), style
+
+
+def relayout(x, mode):
+    """An equal-valued tensor with another memory layout (modes 0..2; anything else returns x itself)."""
+    if x.dim() == 0 or x.numel() == 0:
+        return x
+    if mode == 0:
+        big = x.new_zeros(tuple(x.shape[:-1]) + (2 * x.shape[-1],))
+        big[..., ::2] = x
+        return big[..., ::2]
+    if mode == 1 and x.dim() >= 2:
+        return x.transpose(0, -1).contiguous().transpose(0, -1)
+    if mode == 2:
+        big = x.new_zeros(x.numel() + 3)
+        big[3:] = x.reshape(-1)
+        return big[3:].view(x.shape)
+    return x
 
 
 def magnitude(rng, lo=-6, hi=6):
